@@ -113,14 +113,13 @@ def model : Tables :=
       ⟨"convolve", "__sub__", 0, "Convolve", (.attr "self" "input_shape"), (.attr "self" "output_shape"), (.rt (.attr "self" "input_dtype") (.attr "other" "input_dtype")), .absent, [("h", "self.h - other.h"), ("mode", "self.mode")]⟩,
       ⟨"convolve", "__mul__", 0, "Convolve", (.attr "self" "input_shape"), (.attr "self" "output_shape"), (.rt (.attr "self" "input_dtype") (.name "scalar")), .absent, [("h", "self.h * scalar"), ("mode", "self.mode")]⟩,
       ⟨"convolve", "__truediv__", 0, "Convolve", (.attr "self" "input_shape"), (.attr "self" "output_shape"), (.rt (.attr "self" "input_dtype") (.name "scalar")), .absent, [("h", "self.h / scalar"), ("mode", "self.mode")]⟩,
-      ⟨"circconv", "__add__", 0, "CircularConvolve", (.attr "self" "input_shape"), .absent, (.rt (.attr "self" "input_dtype") (.attr "other" "input_dtype")), .absent, [("h", "self.h_dft + other.h_dft"), ("ndims", "self.ndims")]⟩,
-      ⟨"circconv", "__sub__", 0, "CircularConvolve", (.attr "self" "input_shape"), .absent, (.rt (.attr "self" "input_dtype") (.attr "other" "input_dtype")), .absent, [("h", "self.h_dft - other.h_dft"), ("ndims", "self.ndims")]⟩,
-      ⟨"circconv", "__mul__", 0, "CircularConvolve", (.attr "self" "input_shape"), .absent, (.rt (.attr "self" "input_dtype") (.name "scalar")), .absent, [("h", "self.h_dft * scalar"), ("ndims", "self.ndims")]⟩,
-      ⟨"circconv", "__truediv__", 0, "CircularConvolve", (.attr "self" "input_shape"), .absent, (.rt (.attr "self" "input_dtype") (.name "scalar")), .absent, [("h", "self.h_dft / scalar"), ("ndims", "self.ndims")]⟩,
+      ⟨"circconv", "__add__", 0, "CircularConvolve", (.attr "self" "input_shape"), .absent, (.rt (.attr "self" "input_dtype") (.attr "other" "input_dtype")), (.rt (.attr "self" "output_dtype") (.attr "other" "output_dtype")), [("h", "self.h_dft + other.h_dft"), ("ndims", "self.ndims")]⟩,
+      ⟨"circconv", "__sub__", 0, "CircularConvolve", (.attr "self" "input_shape"), .absent, (.rt (.attr "self" "input_dtype") (.attr "other" "input_dtype")), (.rt (.attr "self" "output_dtype") (.attr "other" "output_dtype")), [("h", "self.h_dft - other.h_dft"), ("ndims", "self.ndims")]⟩,
+      ⟨"circconv", "__mul__", 0, "CircularConvolve", (.attr "self" "input_shape"), .absent, (.rt (.attr "self" "input_dtype") (.name "scalar")), (.rt (.attr "self" "output_dtype") (.name "scalar")), [("h", "self.h_dft * scalar"), ("ndims", "self.ndims")]⟩,
+      ⟨"circconv", "__truediv__", 0, "CircularConvolve", (.attr "self" "input_shape"), .absent, (.rt (.attr "self" "input_dtype") (.name "scalar")), (.rt (.attr "self" "output_dtype") (.name "scalar")), [("h", "self.h_dft / scalar"), ("ndims", "self.ndims")]⟩,
       ⟨"opvstack", "__init__", 0, "super().__init__", (.raw "ops[0].input_shape"), (.name "output_shape"), (.raw "ops[0].input_dtype"), (.raw "ops[0].output_dtype"), []⟩,
       ⟨"opdstack", "__init__", 0, "super().__init__", (.name "input_shape"), (.name "output_shape"), (.raw "ops[0].input_dtype"), (.raw "ops[0].output_dtype"), []⟩,
       ⟨"opdrep", "__init__", 0, "super().__init__", (.name "input_shape"), (.name "output_shape"), (.attr "op" "input_dtype"), (.attr "op" "output_dtype"), []⟩
     ] }
-
 
 end Scico.OpAlg.Tables
